@@ -219,8 +219,9 @@ def execute_e2e(case, t):
         v = getattr(res, f.name)
         if f.name in ("point_labels", "markov_random_fields", "num_clusters", "window_size"):
             continue
-        if f.name == "calinski_harabasz_index" and not eligible_ch:
-            continue        # defined for converged runs with every cluster populated (C17)
+        if f.name == "calinski_harabasz_index":
+            continue        # a dispersion ratio, not a likelihood / cost / information criterion: with zero within-cluster
+                            # dispersion (constant or duplicated data) its definition itself is infinite (C17 decides its value)
         arr = np.asarray(v, dtype=float)
         if not np.all(np.isfinite(arr)):
             raise Violation(f"result field {f.name} is not finite: {v!r}")
